@@ -57,6 +57,10 @@ pub struct C19Scn {
     /// passed as --removal-marker-target-name on every tick
     pub flag_targets: Vec<String>,
     pub events: Vec<Event>,
+    /// true: the runs alternate between two work files (`--filename a --output b`, then
+    /// `--filename b --output a`, ...) instead of rewriting one file in place
+    #[serde(default)]
+    pub pingpong: bool,
     /// true: the history is a *library session* (stepwise `clean` calls on one thread of one
     /// process) instead of CLI executions rewriting a file; crashes and I/O plans do not apply
     #[serde(default)]
@@ -64,6 +68,8 @@ pub struct C19Scn {
 }
 
 const SRC: &str = "app/src.txt";
+/// second work file of a ping-pong history (`-f a -o b`, then `-f b -o a`, ...)
+const SRC_B: &str = "app/src.next.txt";
 const CFG: &str = "targets.txt";
 const FEATURES: &[&str] = &["feature1", "feature2", "feature3", "Feature1", "feature10", "機能A"];
 
@@ -229,16 +235,17 @@ pub fn generate(seed: u64) -> C19Scn {
         }
     }
     let session = rng.chance(1, 5);
-    C19Scn { doc, offset, initial_targets, flag_targets, events, session }
+    let pingpong = !session && rng.chance(1, 6);
+    C19Scn { doc, offset, initial_targets, flag_targets, events, session, pingpong }
 }
 
 /// (Until the tokenizer's end-offset defect was repaired - F6 - documents ending in a
 /// multi-byte end delimiter were given a final newline here.  Nothing is avoided any more.)
 pub fn avoid_known_c01_panic(_doc: &mut Doc) {}
 
-fn tick_exec(scn: &C19Scn, t: &Tick) -> Exec {
+fn tick_exec(scn: &C19Scn, t: &Tick, input: &str, output: &str) -> Exec {
     let d = &scn.doc;
-    let mut argv: Vec<String> = vec!["chiritori".into(), "--filename".into(), SRC.into(), "--output".into(), SRC.into()];
+    let mut argv: Vec<String> = vec!["chiritori".into(), "--filename".into(), input.into(), "--output".into(), output.into()];
     argv.push(format!("--removal-marker-target-config={}", CFG));
     for f in &scn.flag_targets {
         argv.push(format!("--removal-marker-target-name={}", f));
@@ -448,6 +455,12 @@ pub fn run(scn: &C19Scn, stats: &mut RunStats) -> Option<Violation> {
     }
     let mut fs = Fs::new();
     fs.insert(SRC.to_string(), orig.clone().into_bytes());
+    // the file that holds the current state, and the file the next run writes
+    let mut cur: String = SRC.to_string();
+    let mut nxt: String = if scn.pingpong { SRC_B.to_string() } else { SRC.to_string() };
+    if scn.pingpong {
+        stats.bump("probe_pingpong_history");
+    }
     let mut cfg_text = String::new();
     for t in &scn.initial_targets {
         cfg_text.push_str(t);
@@ -484,10 +497,10 @@ pub fn run(scn: &C19Scn, stats: &mut RunStats) -> Option<Violation> {
             Event::Tick(t) => {
                 first_t.get_or_insert(t.now.0);
                 last_t = last_t.max(t.now);
-                let before = String::from_utf8_lossy(&fs[SRC]).into_owned();
-                let ex = tick_exec(scn, t);
+                let before = String::from_utf8_lossy(&fs[&cur]).into_owned();
+                let ex = tick_exec(scn, t, &cur, &nxt);
                 let out = execute(&mut fs, &ex, crate::cli::run);
-                let after_bytes = fs.get(SRC).cloned().unwrap_or_default();
+                let after_bytes = fs.get(&nxt).cloned().unwrap_or_default();
                 stats.note(format!("event {}: tick[{}] now={:?} argv={:?} env={:?}", k, t.label, t.now, ex.argv, ex.env));
                 stats.absorb(&format!("tick:{}", t.label), &out, &after_bytes);
                 stats.note(format!("   file after tick: {:?}", String::from_utf8_lossy(&after_bytes)));
@@ -532,7 +545,7 @@ pub fn run(scn: &C19Scn, stats: &mut RunStats) -> Option<Violation> {
                     Status::Crash("before_open_write") => {
                         stats.bump("crash_before_commit_fired");
                         perturbed = true;
-                        if after != before {
+                        if !scn.pingpong && after != before {
                             stats.bump("probe_crash_before_commit_changed_file");
                         }
                         last_committed_removed = false;
@@ -579,6 +592,10 @@ pub fn run(scn: &C19Scn, stats: &mut RunStats) -> Option<Violation> {
                             k,
                         );
                     }
+                }
+                // --- committed tick: the state moves to the file just written ------
+                if scn.pingpong {
+                    std::mem::swap(&mut cur, &mut nxt);
                 }
                 // --- committed tick: I2 / I3 -------------------------------------
                 if after != before {
@@ -658,9 +675,9 @@ pub fn run(scn: &C19Scn, stats: &mut RunStats) -> Option<Violation> {
                         TickTime::Clock { .. } => TickTime::Clock { tick_ns: 0 },
                         x => x.clone(),
                     };
-                    let ex2 = tick_exec(scn, &t2);
+                    let ex2 = tick_exec(scn, &t2, &cur, &nxt);
                     let out2 = execute(&mut fs2, &ex2, crate::cli::run);
-                    let again = fs2.get(SRC).cloned().unwrap_or_default();
+                    let again = fs2.get(&nxt).cloned().unwrap_or_default();
                     stats.absorb("shadow-dup", &out2, &again);
                     if !matches!(out2.status, Status::Exit(0)) && again == after_bytes {
                         // the run failed without touching the file: a totality matter (C01) if the
@@ -715,9 +732,10 @@ pub fn run(scn: &C19Scn, stats: &mut RunStats) -> Option<Violation> {
             io: IoPlan::default(),
             label: "final".into(),
         };
-        let ex = tick_exec(scn, &final_tick);
+        let ex = tick_exec(scn, &final_tick, &cur, &nxt);
+        let input_before_final = fs.get(&cur).cloned().unwrap_or_default();
         let out = execute(&mut fs, &ex, crate::cli::run);
-        let after = fs.get(SRC).cloned().unwrap_or_default();
+        let after = fs.get(&nxt).cloned().unwrap_or_default();
         stats.absorb("final", &out, &after);
         let k = scn.events.len();
         if matches!(out.status, Status::Exit(0)) {
@@ -745,14 +763,18 @@ pub fn run(scn: &C19Scn, stats: &mut RunStats) -> Option<Violation> {
                     k,
                 );
             }
+            if scn.pingpong {
+                std::mem::swap(&mut cur, &mut nxt);
+            }
+            let ex = tick_exec(scn, &final_tick, &cur, &nxt);
             let out2 = execute(&mut fs, &ex, crate::cli::run);
-            let again = fs.get(SRC).cloned().unwrap_or_default();
+            let again = fs.get(&nxt).cloned().unwrap_or_default();
             stats.absorb("final-dup", &out2, &again);
             if again != after {
                 return fail("C19.I1_idempotent", "dup-changes-file".into(), "a second run at the final configuration changed the file".into(), k);
             }
         } else {
-            let before = String::from_utf8_lossy(&after).into_owned();
+            let before = String::from_utf8_lossy(&input_before_final).into_owned();
             if lib_call(&before, &scn.doc, &scn.offset, last_t, &targets, Mode::Clean, false).is_err() {
                 if before != orig && fresh_one_shot(scn, &orig, last_t, &targets).is_ok() {
                     return fail(
@@ -799,6 +821,11 @@ pub fn shrink_candidates(s: &C19Scn) -> Vec<C19Scn> {
         c.flag_targets.remove(i);
         out.push(c);
     }
+    if s.pingpong {
+        let mut c = s.clone();
+        c.pingpong = false;
+        out.push(c);
+    }
     if s.offset != "+00:00" {
         // keep the wall-clock `to` strings, move to UTC: only valid if the violation persists
         let mut c = s.clone();
@@ -841,10 +868,10 @@ pub fn sample(s: &C19Scn) -> serde_json::Value {
         .map(|e| match e {
             Event::ConfigGrows { name } => serde_json::json!({"config_grows": name}),
             Event::Tick(t) => {
-                let ex = tick_exec(s, t);
+                let ex = tick_exec(s, t, SRC, if s.pingpong { SRC_B } else { SRC });
                 serde_json::json!({"tick": t.label, "now": [t.now.0, t.now.1], "argv": ex.argv, "env": ex.env, "clock": [ex.clock.sec, ex.clock.nsec, ex.clock.tick_ns], "io_plan": t.io})
             }
         })
         .collect();
-    serde_json::json!({"library_session": s.session, "source": s.doc.render(), "offset": s.offset, "initial_targets": s.initial_targets, "flag_targets": s.flag_targets, "events": events})
+    serde_json::json!({"library_session": s.session, "pingpong": s.pingpong, "source": s.doc.render(), "offset": s.offset, "initial_targets": s.initial_targets, "flag_targets": s.flag_targets, "events": events})
 }
